@@ -647,7 +647,8 @@ impl Store {
                 let tags = filter.tags()?;
                 for mut tag in tags.iter() {
                     if let Some(tag0) = tag.next() {
-                        if let Some(tagvalue) = tag.next() {
+                        // every listed value of this tag is an alternative
+                        for tagvalue in tag {
                             let iter = self.indexes.atc_iter(
                                 author,
                                 tag0[0],
@@ -702,7 +703,8 @@ impl Store {
                 let tags = filter.tags()?;
                 for mut tag in tags.iter() {
                     if let Some(tag0) = tag.next() {
-                        if let Some(tagvalue) = tag.next() {
+                        // every listed value of this tag is an alternative
+                        for tagvalue in tag {
                             let iter = self.indexes.ktc_iter(
                                 kind,
                                 tag0[0],
@@ -756,7 +758,8 @@ impl Store {
             let tags = filter.tags()?;
             for mut tag in tags.iter() {
                 if let Some(tag0) = tag.next() {
-                    if let Some(tagvalue) = tag.next() {
+                    // every listed value of this tag is an alternative
+                    for tagvalue in tag {
                         let iter =
                             self.indexes
                                 .tc_iter(tag0[0], tagvalue, since, filter.until(), &txn)?;
